@@ -10,7 +10,7 @@ import copy
 import importlib
 import re
 
-PROP_GROUPS = {'C20': ['sql'], 'C16': ['concat', 'concat_map', 'duplicate'], 'C12': ['sortkey'], 'C04': ['driver'], 'C15': ['fields', 'delete_schema', 'select_schema', 'get_type'], 'C01': ['flow'], 'C07': ['flow', 'ejson', 'ejson_hook'], 'C11': ['join'], 'C02': ['join', 'get_type'], 'C10': ['matcher'], 'C14': ['handlers', 'vloop'], 'C17': ['rows'], 'C13': ['load']}
+PROP_GROUPS = {'C18': ['fetcher'], 'C20': ['sql'], 'C16': ['concat', 'concat_map', 'duplicate'], 'C12': ['sortkey'], 'C04': ['driver'], 'C15': ['fields', 'delete_schema', 'select_schema', 'get_type'], 'C01': ['flow'], 'C07': ['flow', 'ejson', 'ejson_hook'], 'C11': ['join'], 'C02': ['join', 'get_type'], 'C10': ['matcher'], 'C14': ['handlers', 'vloop'], 'C17': ['rows'], 'C13': ['load']}
 
 
 # ---------------------------------------------------------------- encoding
@@ -596,6 +596,54 @@ def run_concat_map(ctx, b, n):
               'env': [['fields', to_pv(fields)], ['field_mapping', to_pv({})]]}
         b.add_op(op, 'concat_mapping_loop', real, post=lambda v: ['list'] + [['tuple', canon_py(k), canon_py(t)] for k, t in v],
                  case=[{k: v for k, v in fields.items()}])
+    b.flush()
+
+
+def run_fetcher(ctx, b, n):
+    """one turn of parallelize's fetcher loop: the real `fetcher` run on scripted queues (the internal queue recorded at
+    every `get`), each turn against the translated loop body"""
+    PZ = importlib.import_module('dataflows.processors.parallelize')
+    rng = ctx.rng('pycorr-fetcher')
+    for _ in range(max(2, n // 6)):
+        workers = rng.randint(1, 4)
+        items = [rng.randint(0, 9) for _ in range(rng.randint(0, 6))] + [None] * workers
+        rng.shuffle(items)
+        turns = []
+
+        class QInt:
+            def __init__(self):
+                self.items = []
+
+            def put(self, v):
+                self.items.append(v)
+
+        qint = QInt()
+
+        class QOut:
+            def __init__(self):
+                self.i = 0
+
+            def get(self):
+                turns.append(list(qint.items))
+                it = items[self.i]
+                self.i += 1
+                return it
+
+        PZ.fetcher(QOut(), qint, workers)
+        finals = turns[1:] + [list(qint.items)]
+        nones = 0
+        for k, before in enumerate(turns):
+            item = items[k]
+            exp_before = workers - nones
+            if item is None:
+                nones += 1
+            ext = [['.get', [to_pv('q_out')], to_pv(item)], ['.put!', [to_pv(before), to_pv(item)], to_pv(before + [item])]]
+            if item is not None:
+                ext.append(['.put!', [to_pv(before), to_pv(None)], to_pv(before + [None])])
+            env = [['q_out', to_pv('q_out')], ['q_internal', to_pv(before)], ['expected_nones', to_pv(exp_before)]]
+            for want, real in (('q_internal', finals[k]), ('expected_nones', workers - nones)):
+                op = {'op': 'pyeval', 'fn': 'par_fetcher_body', 'mode': 'value', 'args': [], 'want': want, 'env': env, 'ext': ext}
+                b.add_op(op, 'par_fetcher_body', {'ok': real}, case=[item, exp_before, len(before), want])
     b.flush()
 
 
@@ -1255,7 +1303,7 @@ def run_flow(ctx, b, n):
     b.flush()
 
 
-RUNNERS = {'concat_map': run_concat_map, 'sql': run_sql, 'duplicate': run_duplicate, 'get_type': run_get_type, 'select_schema': run_select_schema, 'delete_schema': run_delete_schema, 'concat': run_concat, 'ejson_hook': run_ejson_hook, 'sortkey': run_sortkey, 'ejson': run_ejson, 'driver': run_driver, 'fields': run_fields, 'flow': run_flow, 'load': run_load, 'vloop': run_vloop, 'join': run_join, 'matcher': run_matcher, 'handlers': run_handlers, 'rows': run_rows}
+RUNNERS = {'fetcher': run_fetcher, 'concat_map': run_concat_map, 'sql': run_sql, 'duplicate': run_duplicate, 'get_type': run_get_type, 'select_schema': run_select_schema, 'delete_schema': run_delete_schema, 'concat': run_concat, 'ejson_hook': run_ejson_hook, 'sortkey': run_sortkey, 'ejson': run_ejson, 'driver': run_driver, 'fields': run_fields, 'flow': run_flow, 'load': run_load, 'vloop': run_vloop, 'join': run_join, 'matcher': run_matcher, 'handlers': run_handlers, 'rows': run_rows}
 
 
 def run(ctx, groups=None, n=None):
